@@ -169,6 +169,19 @@ func (x *c18) exercise(p gmsl.PDU, w *world, tag string) {
 			_, _ = gmsl.ResolveConflicts(p.Version(), append(append(append([]gmsl.PDU{}, setA...), setB...), setC...), auth, userIDForSender, noRej)
 		})
 	}
+	if p.StateKey() == nil {
+		// a non-state event can still be cited as an auth event by whoever sends the auth chain
+		x.step(tag+":state-resolution(as-auth-event)", func() {
+			setA := append([]gmsl.PDU{}, std[:3]...)
+			setA = append(setA, w.members[[2]string{authUsers[1], "join"}])
+			setC := append([]gmsl.PDU{w.create, w.pls[len(w.pls)-1], w.jrs["invite"]}, w.members[[2]string{authUsers[1], "ban"}])
+			auth := append([]gmsl.PDU{p}, std...)
+			noRej := func(string) bool { return false }
+			_, _ = gmsl.ResolveConflictsNew(p.Version(), [][]gmsl.PDU{setA, setC}, auth, userIDForSender, noRej)
+			_, _ = gmsl.ResolveConflicts(p.Version(), append(append([]gmsl.PDU{}, setA...), setC...), auth, userIDForSender, noRej)
+			_, _ = gmsl.ResolveConflictsNew(p.Version(), [][]gmsl.PDU{setA, setC}, append(append([]gmsl.PDU{}, std...), p), userIDForSender, noRej)
+		})
+	}
 	x.step(tag+":orderings", func() {
 		in := []gmsl.PDU{w.create, p, w.pls[0], w.members[[2]string{authUsers[1], "join"}]}
 		_ = gmsl.ReverseTopologicalOrdering(in, gmsl.TopologicalOrderByAuthEvents)
@@ -808,6 +821,107 @@ func (x *c18) keyLengthCases(worlds map[gmsl.RoomVersion]*world) {
 	}
 }
 
+// cyclicReferences: in room versions 1 and 2 the event ID is chosen by the sender and travels in the event, so an event
+// can name itself, or two events each other, as auth / prev events. Nothing that walks those links may recurse forever.
+func (x *c18) cyclicReferences(worlds map[gmsl.RoomVersion]*world) {
+	c := x.c
+	for _, ver := range []gmsl.RoomVersion{gmsl.RoomVersionV1, gmsl.RoomVersionV2} {
+		w := worlds[ver]
+		if w == nil {
+			continue
+		}
+		impl := gmsl.MustGetRoomVersion(ver)
+		refTo := func(id string) *ref.Value { return ref.A(ref.S(id), ref.O("sha256", ref.S("aGFzaA"))) }
+		mk := func(id string, typ string, sk *string, sender string, content *ref.Value, auth, prev []string) gmsl.PDU {
+			ev := ref.O("event_id", ref.S(id), "type", ref.S(typ), "sender", ref.S(sender), "room_id", ref.S(w.roomID), "content", content, "depth", ref.I(5), "origin_server_ts", ref.I(1700000000000), "origin", ref.S("origin.example"))
+			if sk != nil {
+				ev.Set("state_key", ref.S(*sk))
+			}
+			a, pr := ref.A(refTo(w.create.EventID())), ref.A()
+			for _, id := range auth {
+				a.A = append(a.A, refTo(id))
+			}
+			for _, id := range prev {
+				pr.A = append(pr.A, refTo(id))
+			}
+			ev.Set("auth_events", a)
+			ev.Set("prev_events", pr)
+			p, err := impl.NewEventFromUntrustedJSON(gen.Plain().Bytes(rehashAndSign(ev, w.t)))
+			if err != nil {
+				return nil
+			}
+			return p
+		}
+		creator := authUsers[0]
+		plc := func(n int64) *ref.Value { return ref.O("users", ref.O(creator, ref.I(100), authUsers[1], ref.I(n))) }
+		shapes := map[string][]gmsl.PDU{
+			"power-levels-citing-itself":      {mk("$selfpl:origin.example", "m.room.power_levels", strp(""), creator, plc(50), []string{"$selfpl:origin.example"}, nil)},
+			"power-levels-citing-each-other":  {mk("$pla:origin.example", "m.room.power_levels", strp(""), creator, plc(50), []string{"$plb:origin.example"}, nil), mk("$plb:origin.example", "m.room.power_levels", strp(""), creator, plc(25), []string{"$pla:origin.example"}, nil)},
+			"member-citing-itself":            {mk("$selfm:origin.example", "m.room.member", strp(authUsers[1]), creator, ref.O("membership", ref.S("ban")), []string{"$selfm:origin.example"}, []string{"$selfm:origin.example"})},
+			"join-rules-three-cycle":          {mk("$j1:origin.example", "m.room.join_rules", strp(""), creator, ref.O("join_rule", ref.S("public")), []string{"$j2:origin.example"}, nil), mk("$j2:origin.example", "m.room.join_rules", strp(""), creator, ref.O("join_rule", ref.S("invite")), []string{"$j3:origin.example"}, nil), mk("$j3:origin.example", "m.room.join_rules", strp(""), creator, ref.O("join_rule", ref.S("knock")), []string{"$j1:origin.example"}, nil)},
+			"topic-and-power-levels-in-a-loop": {mk("$t1:origin.example", "m.room.topic", strp(""), creator, ref.O("topic", ref.S("x")), []string{"$pl1:origin.example"}, []string{"$pl1:origin.example"}), mk("$pl1:origin.example", "m.room.power_levels", strp(""), creator, plc(10), []string{"$t1:origin.example"}, []string{"$t1:origin.example"})},
+		}
+		names := make([]string, 0, len(shapes))
+		for n := range shapes {
+			names = append(names, n)
+		}
+		sortStrings(names)
+		for i, name := range names {
+			evs := shapes[name]
+			if !c.Mine(i) {
+				continue
+			}
+			ok := true
+			for _, e := range evs {
+				if e == nil {
+					ok = false
+				}
+			}
+			if !ok {
+				c.Count("cyclic_shapes_refused_by_the_parser")
+				continue
+			}
+			c.Case("cyclic-references:"+string(ver)+":"+name, map[string]any{"version": ver, "shape": name}, func() {
+				c.Nontrivial("cyclic|" + string(ver) + "|" + name)
+				x.entry = "cyclic-references:" + name
+				std := []gmsl.PDU{w.create, w.pls[0], w.jrs["public"], w.members[[2]string{creator, "join"}], w.members[[2]string{authUsers[1], "join"}]}
+				noRej := func(string) bool { return false }
+				x.step("cyclic:state-resolution", func() {
+					setA := append(append([]gmsl.PDU{}, std...), evs[0])
+					setB := append(append([]gmsl.PDU{}, std...), evs[len(evs)-1])
+					auth := append(append([]gmsl.PDU{}, std...), evs...)
+					_, _ = gmsl.ResolveConflictsNew(ver, [][]gmsl.PDU{setA, setB}, auth, userIDForSender, noRej)
+					_, _ = gmsl.ResolveConflicts(ver, append(append([]gmsl.PDU{}, setA...), setB...), auth, userIDForSender, noRej)
+				})
+				x.step("cyclic:orderings", func() {
+					in := append(append([]gmsl.PDU{}, std...), evs...)
+					_ = gmsl.ReverseTopologicalOrdering(in, gmsl.TopologicalOrderByAuthEvents)
+					_ = gmsl.ReverseTopologicalOrdering(in, gmsl.TopologicalOrderByPrevEvents)
+				})
+				x.step("cyclic:VerifyEventAuthChain", func() {
+					pool := map[string]gmsl.PDU{}
+					for _, e := range append(append([]gmsl.PDU{}, std...), evs...) {
+						pool[e.EventID()] = e
+					}
+					prov := func(roomVer gmsl.RoomVersion, ids []string) ([]gmsl.PDU, error) {
+						var out []gmsl.PDU
+						for _, id := range ids {
+							if e, ok := pool[id]; ok {
+								out = append(out, e)
+							}
+						}
+						return out, nil
+					}
+					for _, e := range evs {
+						_ = gmsl.VerifyEventAuthChain(context.Background(), e, prov, userIDForSender)
+					}
+				})
+				c.Count("cyclic_shapes_exercised")
+			})
+		}
+	}
+}
+
 func runC18(c *mon.Ctx) {
 	versions := sortedVersions()
 	r := c.Rand("inputs")
@@ -820,6 +934,7 @@ func runC18(c *mon.Ctx) {
 	}
 	x := &c18{c: c}
 	x.keyLengthCases(worlds)
+	x.cyclicReferences(worlds)
 	x.fieldEnumeration(r, versions, worlds)
 	x.byteMutation(r, versions, worlds, c.Scale(16000, 1600000), c.Scale(16000, 1600000))
 	c.Floor("field_cases_accepted_by_a_parser", 1000)
